@@ -105,6 +105,16 @@ Definition route_ok (l : list string) : bool :=
   let want := ["ImmediateOrigin"; "ImmediateDestination"] in
   forallb (fun x => str_mem x want) l && forallb (fun x => str_mem x l) want.
 
+(* the dollar cap is forced into the NACHA range exactly as the model's [clamp] does (a cap of 0 or above the
+   limit becomes the limit), and an entry's out-batch is chosen by findOutBatch comparing headers with
+   BatchHeader.Equal and trace numbers with the tree-map's Contains: the comparison the theorems are about *)
+Definition expected_clamps : list string :=
+  ["conditions.MaxDollarAmount == 0 || conditions.MaxDollarAmount > NachaFileDebitCreditLimit => conditions.MaxDollarAmount = NachaFileDebitCreditLimit"].
+Definition clamps_ok (l : list string) : bool :=
+  forallb (fun x => str_mem x expected_clamps) l && forallb (fun x => str_mem x l) expected_clamps.
+Definition lookup_ok (add_calls find_calls : list string) : bool :=
+  str_mem "findOutBatch" add_calls && str_mem "Equal" find_calls && str_mem "Contains" find_calls.
+
 Definition limits_ok (line dollar : option Z) : bool :=
   match line, dollar with
   | Some l, Some d => (l =? 10000)%Z && (d =? nacha_limit)%Z
